@@ -2746,7 +2746,7 @@ class NLegLadder(Lattice):
 
         import matplotlib.pyplot as plt
         from tenpy.models import lattice
-        plt.figure(figsize=(7., 2.))
+        plt.figure(figsize=(7., 3.))
         ax = plt.gca()
         lat = lattice.NLegLadder(8, 3, None, bc='periodic')
         for key, lw in zip(['rung_NN', 'leg_NN', 'diagonal'], [3., 2., 1.]):
@@ -2757,7 +2757,7 @@ class NLegLadder(Lattice):
         lat.plot_basis(ax, origin=[-0.5, -0.25], shade=False)
         ax.set_aspect('equal')
         ax.set_xlim(-1.)
-        ax.set_ylim(-0.5, 1.5)
+        ax.set_ylim(-0.5, 2.5)
         ax.legend(loc='upper left', bbox_to_anchor=(1., 1.))
         plt.show()
 
@@ -2765,7 +2765,7 @@ class NLegLadder(Lattice):
 
         import matplotlib.pyplot as plt
         from tenpy.models import lattice
-        fig, axes = plt.subplots(3, 1, sharex=True, sharey=True, figsize=(6, 5))
+        fig, axes = plt.subplots(3, 1, sharex=True, sharey=True, figsize=(6, 8))
         lat = lattice.NLegLadder(8, 3, None, bc='periodic')
         order_names=['default', 'snakeFstyle', 'folded']
         for order_name, ax in zip(order_names, axes.flatten()):
@@ -2777,7 +2777,7 @@ class NLegLadder(Lattice):
             ax.set_title(f"order={order_name!r}")
             ax.set_aspect('equal')
             ax.set_xlim(-0.8)
-            ax.set_ylim(-0.2, 1.2)
+            ax.set_ylim(-0.2, 2.2)
         plt.show()
 
 
@@ -2809,7 +2809,7 @@ class NLegLadder(Lattice):
     def __init__(self, L, N, sites, **kwargs):
         sites = _parse_sites(sites, N)
         basis = np.array([[1.0, 0.0]])
-        pos = np.vstack((np.zeros(N), np.linspace(0, 1, N))).T
+        pos = np.vstack((np.zeros(N), np.arange(N, dtype=float))).T  # unit distance between neighboring chains
         kwargs.setdefault('basis', basis)
         kwargs.setdefault('positions', pos)
         rung_NN = [(n, n + 1, np.array([0])) for n in range(N - 1)]
